@@ -329,6 +329,38 @@ class Program:
         return res
 
 
+def split_qualified(callee):
+    """`<A as B>::method[::<G>]` -> (A, B, method) with the ` as ` taken at bracket depth 1; None if not of that form"""
+    if not callee.startswith("<"):
+        return None
+    depth = 0
+    as_pos = None
+    end = None
+    i = 0
+    n = len(callee)
+    while i < n:
+        c = callee[i]
+        if c in "<([{":
+            depth += 1
+        elif c in ")]}":
+            depth -= 1
+        elif c == ">" and callee[i - 1] != "-":
+            depth -= 1
+            if depth == 0:
+                end = i
+                break
+        elif depth == 1 and as_pos is None and callee[i:i + 4] == " as ":
+            as_pos = i
+        i += 1
+    if end is None or as_pos is None:
+        return None
+    rest = callee[end + 1:]
+    m = re.match(r"^::(\w+)(?:::<.*>)?$", rest)
+    if not m:
+        return None
+    return callee[1:as_pos].strip(), callee[as_pos + 4:end].strip(), m.group(1)
+
+
 def _last_seg(name):
     return split_path(name)[-1]
 
@@ -397,6 +429,7 @@ class Executor:
         self.div_cache = {}
         self.summaries = {}  # short function name -> fn(executor, state, args) -> (state, value): proved contract used instead of the body
         self.summarized = set()
+        self.raw_summaries = []  # (regex on callee text, fn(executor, state, args))
 
     # -- helpers -------------------------------------------------------------------------------
     def fresh(self, prefix, sort="Int"):
@@ -472,6 +505,9 @@ class Executor:
         if mts and not mts.group(1).startswith(("core::", "std::")):
             inner = [x for x in split_top(mts.group(2)) if x != ""]
             return Agg("struct", _base(mts.group(1)), [self.const_value(x) for x in inner])
+        mz = re.fullmatch(r"ZeroSized: (\{closure@[^}]*\})", t)
+        if mz:
+            return Agg("struct", mz.group(1), [])
         # ZST constructors / function items
         if t.startswith("{closure") or t.startswith("fn("):
             return OpaqueV(t)
@@ -885,7 +921,8 @@ class Executor:
             v = self.operand(st, frame, rv[1])
             return Agg("array", "array", [v] * n.e.as_long())
         if k == "struct":
-            return Agg("struct", _base(rv[1]), [self.operand(st, frame, o) for _, o in rv[2]])
+            nm = rv[1] if rv[1].startswith("{closure@") else _base(rv[1])
+            return Agg("struct", nm, [self.operand(st, frame, o) for _, o in rv[2]])
         if k == "ctor":
             return self.ctor(st, frame, rv[1], rv[2])
         if k == "len":
@@ -921,6 +958,10 @@ class Executor:
         """returns (state_after, value) ; state_after None if the call never returns"""
         callee = self.subst_ty(callee)
         self.stats["calls"] += 1
+        for rx, fn in self.raw_summaries:
+            if re.search(rx, callee):
+                self.summarized.add(callee)
+                return fn(self, st, args)
         r = self.intrinsic(st, callee, args)
         if r is not NotImplemented:
             return r
@@ -962,9 +1003,9 @@ class Executor:
         p = self.p
         env = {}
         # closures passed as values are called through intrinsics; here only named functions
-        m = re.fullmatch(r"<(.+) as (.+)>::(\w+)(?:::<.*>)?", callee)
+        m = split_qualified(callee)
         if m:
-            selfty, trait, meth = m.group(1).strip(), m.group(2).strip(), m.group(3)
+            selfty, trait, meth = m
             selfty_nr = selfty.lstrip("&").strip()
             cands = p.traitimpl.get((_base(selfty_nr), _base(trait), meth), [])
             cands = [c for c in cands if _trait_args_match(c[2], trait)] or cands
@@ -1059,9 +1100,9 @@ class Executor:
         m = re.fullmatch(r"(?:(?:core|std)::result::)?Result::<(.+)>::(\w+)(::<.*>)?", c)
         if m:
             return self.result_method(st, m.group(2), args, c)
-        m = re.fullmatch(r"<(.+) as (.+)>::(\w+)(?:::<.*>)?", c)
+        m = split_qualified(c)
         if m:
-            selfty, trait, meth = m.group(1).strip(), m.group(2).strip(), m.group(3)
+            selfty, trait, meth = m
             tb = _base(trait)
             sb = selfty.lstrip("&").strip()
             if tb in ("From", "Into") and meth in ("from", "into"):
@@ -1239,6 +1280,10 @@ class Executor:
         if meth == "ok_or":
             pl = v.payload.get(1, [None])
             return st, EnumV("Result", z3.If(v.disc == 1, 0, 1), {0: pl, 1: [args[1]]})
+        if meth == "ok_or_else":
+            # the closure only builds the error value (message); it is not executed: the error is opaque
+            pl = v.payload.get(1, [None])
+            return st, EnumV("Result", z3.If(v.disc == 1, 0, 1), {0: pl, 1: [OpaqueV("error built by " + c[-60:])]})
         if meth in ("map", "and_then", "filter"):
             clo = args[1]
             f = self.closure_body(c, clo)
